@@ -219,6 +219,32 @@ def list_method(ex, l, f, node, st):
     if name == "reverse":
         ex.assign(f.value, list_reverse(l), st, node)
         return vnone()
+    if name == "sort":
+        # trusted model of list.sort(key=f): a permutation of the list, non-decreasing in the key (stability not modelled)
+        kw = {k.arg: k.value for k in node.keywords}
+        n = list_len(l)
+        L2 = fresh(l.kind, "sorted")
+        perm = z3.Function(uid("perm"), z3.IntSort(), z3.IntSort())
+        inv = z3.Function(uid("perminv"), z3.IntSort(), z3.IntSort())
+        i, j = z3.Int(uid("si")), z3.Int(uid("sj"))
+
+        def key(elem):
+            if "key" not in kw:
+                return elem
+            fv = ex.eval(kw["key"], st)
+            if not (isinstance(fv.kind, KFunc) and fv.py and fv.py[0] == "func"):
+                raise OutOfSubset("sort key must be a repository function")
+            return ex.call_function(fv.py[1], [elem], {}, st, node)
+        ki, kj = key(list_get(L2, i)), key(list_get(L2, j))
+        ex.ctx.trusted_used.add("list.sort")
+        hy = ex.ctx.hyps
+        hy.append(L2.terms[0] == n)
+        hy.append(z3.ForAll([i], implies(and_(i >= 0, i < n), and_(perm(i) >= 0, perm(i) < n, inv(perm(i)) == i,
+                                                                  *[a == b for a, b in zip(list_get(L2, i).terms, list_get(l, perm(i)).terms)]))))
+        hy.append(z3.ForAll([j], implies(and_(j >= 0, j < n), and_(inv(j) >= 0, inv(j) < n, perm(inv(j)) == j))))
+        hy.append(z3.ForAll([i, j], implies(and_(i >= 0, i < j, j < n), compare("<=", ki, kj))))
+        ex.assign(f.value, L2, st, node)
+        return vnone()
     raise OutOfSubset("list method " + name)
 
 
